@@ -84,7 +84,7 @@ def stepLine (d : DState) (w : List String) : DState × String :=
         match parseCoords64 cs with
         | some p =>
           if updateThrows s p then (d, "throw") else
-          let x := update (concretePicker (kernelF64 ker)) d.src s p
+          let x := update d.cfg (concretePicker (kernelF64 ker)) d.src s p
           let ob := Obj.f64 ker x.1
           let d' := { d with src := x.2 }
           (d'.set' id (some ob), observe ob x.2)
@@ -93,7 +93,7 @@ def stepLine (d : DState) (w : List String) : DState × String :=
         match parseCoords32 cs with
         | some p =>
           if updateThrows s p then (d, "throw") else
-          let x := update (concretePicker (kernelF32 ker)) d.src s p
+          let x := update d.cfg (concretePicker (kernelF32 ker)) d.src s p
           let ob := Obj.f32 ker x.1
           let d' := { d with src := x.2 }
           (d'.set' id (some ob), observe ob x.2)
